@@ -61,6 +61,7 @@ struct Op {
   bool expect_error = false; // the invocation must fail with an error (C11 invalid dyndep files)
   std::vector<std::string> canonical_args;  // C14: the same invocation with every path argument spelled canonically
   bool crash = false;        // additionally enumerate every crash point of every schedule of this invocation
+  bool compare_output_with_twin = false;   // C14: a tool's output on the oddly spelled project equals its output on the canonical twin
   bool no_expand = false;    // successor worlds of this op are checked but not expanded further
 };
 
